@@ -56,6 +56,11 @@ type c15Case struct {
 	Hold            string `json:"hold,omitempty"`                     // "" | "dns-expiry-pass" | "seconds"
 	HoldN           int    `json:"hold_n,omitempty"`                   // passes of the DNS listener's expiry sweep / seconds
 	DNSConnTimeoutS int    `json:"dns_connection_timeout_s,omitempty"` // sdns.ConnectionTimeout during the scenario
+
+	// stalled peers that use a resource up (c15_fdlimit_test.go)
+	Fault    string `json:"fault,omitempty"`     // "" | "descriptor-exhaustion"
+	Pairs    int    `json:"pairs,omitempty"`     // stalled peers the descriptor table has room for (2 descriptors each, +1)
+	LeavePct int    `json:"leave_pct,omitempty"` // share of the piled-up peers that leave before the good clients arrive
 }
 
 var kinds = []string{"tcp", "unix", "tcp+tls", "tcp+starttls", "ws", "wss", "udp", "dns"}
@@ -765,7 +770,7 @@ func startServer(c *c15Case) (*e2e.Pair, error) {
 }
 
 func caseKey(c *c15Case) string {
-	return fmt.Sprintf("%s/%s/%s/%d/%v/%s/%s%d", c.Kind, c.Order, strings.Join(c.Points, ","), c.Goods, c.Sizes, strings.Join(c.GarbageClass, ","), c.Hold, c.HoldN)
+	return fmt.Sprintf("%s/%s/%s/%d/%v/%s/%s%d", c.Kind, c.Order, strings.Join(c.Points, ","), c.Goods, c.Sizes, strings.Join(c.GarbageClass, ","), c.Hold+c.Fault, c.HoldN+c.Pairs*100+c.LeavePct)
 }
 
 // runScenario returns true when the scenario cost a stall window (budget control).
@@ -1180,6 +1185,15 @@ func buildHoldCases(rec *vcommon.Rec, ks []string) []*c15Case {
 	return out
 }
 
+func indexOf(l []string, s string) int {
+	for i, v := range l {
+		if v == s {
+			return i
+		}
+	}
+	return 0
+}
+
 func TestVerifC15(t *testing.T) {
 	e2e.Quiet()
 	rec := vcommon.Open()
@@ -1191,7 +1205,11 @@ func TestVerifC15(t *testing.T) {
 		if err := json.Unmarshal(rec.Replay, &c); err != nil {
 			t.Fatal(err)
 		}
-		rs.runScenario(&c)
+		if c.Fault != "" {
+			rs.runFdScenario(&c)
+		} else {
+			rs.runScenario(&c)
+		}
 		return
 	}
 	ks := kinds
@@ -1205,11 +1223,29 @@ func TestVerifC15(t *testing.T) {
 	// a kind whose endpoint is blocked costs two stall windows and is then abandoned
 	// Long-stall scenarios first (work items after the (kind, half) groups): they change a package variable
 	// of the DNS tunnel for their duration and count the sweeps of their own listener.
-	for j, c := range buildHoldCases(rec, ks) {
+	holds := buildHoldCases(rec, ks)
+	for j, c := range holds {
 		if !rec.Mine(2*len(ks)+j) || rs.abandon != "" {
 			continue
 		}
 		rs.runScenario(c)
+	}
+	// Resource-exhaustion scenarios: work items after those (they lower the descriptor limit of the process
+	// for their duration); one work item per kind in the thorough tier, two in all in the quick one.
+	if os.Getenv("VERIF_KINDS") == "" {
+		fdStalls := 0
+		for j, c := range buildFdCases(rec) {
+			item := j % 2
+			if rec.Thorough() {
+				item = indexOf(append(append([]string(nil), fdKinds...), fdMoreKinds...), c.Kind)
+			}
+			if !rec.Mine(2*len(ks)+len(holds)+item) || rs.abandon != "" || fdStalls >= 2 {
+				continue
+			}
+			if rs.runFdScenario(c) {
+				fdStalls++
+			}
+		}
 	}
 	for ki, kind := range ks {
 		cs := buildCases(rec, kind)
